@@ -9,7 +9,7 @@ import random
 import re
 import shutil
 
-from ..common import Ctx, setup_repo_path
+from ..common import Ctx, jsonable, setup_repo_path
 from ..replay import edge_cover
 from ..tlc import SPECS, MachineryError, parse_dot, parse_simulate_file, run_tlc, scratch_dir
 
@@ -82,6 +82,8 @@ def replay_s_walk(ctx, w, consts, init_state, steps, meta, check_queries=True):
     from ..g05_world import Mismatch, diff, spec_state_s
     w.reset(init_state["seeding"])
     labels = []
+    meta = dict(meta, part="S", seeding=init_state["seeding"], variant0=ctx.seed,
+                steps=[[n, jsonable(a)] for n, a, _ in steps])
     d0 = diff(spec_state_s(init_state, consts["Circuits"]), w.project())
     if d0:
         raise MachineryError("part S: the fresh world differs from the initial state: %s" % d0)
@@ -108,7 +110,7 @@ def replay_s_walk(ctx, w, consts, init_state, steps, meta, check_queries=True):
     return True
 
 
-def replay_s_graph(ctx, cfg, tag, max_ops, actions=S_ACTIONS):
+def replay_s_graph(ctx, cfg, tag, max_ops, actions=S_ACTIONS, skip_self_loops=False):
     tmp = scratch_dir("g05-")
     try:
         dot = os.path.join(tmp, "g.dot")
@@ -119,7 +121,7 @@ def replay_s_graph(ctx, cfg, tag, max_ops, actions=S_ACTIONS):
     w, consts = s_world(cfg)
     nwalks = nops = 0
     covered = set()
-    for init, walk in edge_cover(g, max_ops=max_ops, seed=ctx.seed):
+    for init, walk in edge_cover(g, max_ops=max_ops, seed=ctx.seed, skip_self_loops=skip_self_loops):
         steps = [(g.edges[e][1], g.edges[e][2], g.states[g.edges[e][3]]) for e in walk]
         ok = replay_s_walk(ctx, w, consts, g.states[init], steps, {"cfg": cfg})
         covered.update(walk)
@@ -134,7 +136,8 @@ def replay_s_graph(ctx, cfg, tag, max_ops, actions=S_ACTIONS):
     ctx.traces(nwalks)
     ctx.note("replay_" + tag, {"walks": nwalks, "real_operations": nops, "graph_states": len(g.states),
                                "graph_edges": len(g.edges), "edges_covered": len(covered),
-                               "complete_edge_cover": len(covered) == len(g.edges)})
+                               "complete_edge_cover": len(covered) == len(g.edges),
+                               "self_loops_skipped": skip_self_loops})
 
 
 def simulate_s(ctx, cfg, tag, num, depth):
@@ -187,12 +190,12 @@ def p_world(cfg, cache={}):
     return cache[key], consts
 
 
-def replay_p_graph(ctx, cfg, tag, max_ops):
+def replay_p_graph(ctx, cfg, tag, max_ops, actions=P_ACTIONS):
     from ..g05_world import Mismatch, diff, spec_state_p
     tmp = scratch_dir("g05-")
     try:
         dot = os.path.join(tmp, "g.dot")
-        model_check(ctx, cfg, tag, P_ACTIONS, dump=dot)
+        model_check(ctx, cfg, tag, actions, dump=dot)
         g = parse_dot(dot, keep_vars={"now", "pfor", "pips", "msgs", "ret"})
     finally:
         shutil.rmtree(tmp, ignore_errors=True)
@@ -213,7 +216,8 @@ def replay_p_graph(ctx, cfg, tag, max_ops):
             if d:
                 ctx.violation("replayP:%s:%s" % (name, ",".join(sorted(d))),
                               "real PexCommunity diverges from Pex.tla (part P) after %s: %s" % (labels[-1], d),
-                              {"cfg": cfg, "actions": labels, "diff": d})
+                              {"cfg": cfg, "part": "P", "actions": labels, "diff": d,
+                               "steps": [[g.edges[x][1], jsonable(g.edges[x][2])] for x in walk]})
                 break
         covered.update(walk)
         nops += len(walk)
@@ -239,6 +243,7 @@ T_CONSTS = {"T0": 10, "Nodes": frozenset(range(1, 7)), "NSwarmA": 4, "PSeeders":
 
 def record_p_traces(count, length, rng, corrupt=None):
     from ..g05_world import PexWorld
+    random.seed(rng.getrandbits(32))      # the code under test draws its samples from the global generator
     w = PexWorld(T_CONSTS, 100, sampler=False)
     traces = []
     nodes = sorted(T_CONSTS["Nodes"])
@@ -246,16 +251,19 @@ def record_p_traces(count, length, rng, corrupt=None):
     for _ti in range(count):
         w.reset()
         events = []
-        heavy = rng.random() < 0.5        # some nodes announce more than 10 keys: the sample is a strict subset
+        heavy = _ti % 2 == 0              # two nodes announce more than 10 keys: samples are strict subsets, the
+        script = []                       # learned lists of their neighbours run into the bound of 20
+        if heavy:
+            script = [("StartAnnounce", (1, s)) for s in seeders] + [("StartAnnounce", (2, s)) for s in seeders[1:]]
+            rng.shuffle(script)
         for _ in range(length):
             x = rng.random()
             inflight = sorted(w.project()["msgs"])
-            if x < 0.22:
-                n, s = rng.choice(nodes), rng.choice(seeders)
-                if heavy and rng.random() < 0.6:
-                    n = nodes[0]
-                name, args = "StartAnnounce", (n, s)
-            elif x < 0.30:
+            if script:
+                name, args = script.pop()
+            elif x < (0.05 if heavy else 0.22):
+                name, args = "StartAnnounce", (rng.choice(nodes), rng.choice(seeders))
+            elif x < (0.08 if heavy else 0.30):
                 n = rng.choice(nodes)
                 have = w.project()["pfor"][n]
                 if not have:
@@ -263,14 +271,16 @@ def record_p_traces(count, length, rng, corrupt=None):
                 name, args = "StopAnnounce", (n, rng.choice(have))
             elif x < 0.50:
                 n, m = rng.sample(nodes, 2)
+                if heavy and rng.random() < 0.7:
+                    n, m = rng.choice([1, 2]), rng.choice([3, 4])
                 name, args = "Walk", (n, m, None)
-            elif x < 0.78 and inflight:
+            elif x < 0.80 and inflight:
                 t = rng.choice(inflight)
                 name, args = "Deliver", ({"src": t[0], "dst": t[1], "k": t[2], "pks": t[3]}, None)
-            elif x < 0.82 and inflight:
+            elif x < 0.83 and inflight:
                 t = rng.choice(inflight)
                 name, args = "Lose", ({"src": t[0], "dst": t[1], "k": t[2], "pks": t[3]},)
-            elif x < 0.92:
+            elif x < 0.94:
                 name, args = "GetIntroPoints", (rng.choice(nodes),)
             else:
                 name, args = "PTick", ()
@@ -309,27 +319,40 @@ def record_p_traces(count, length, rng, corrupt=None):
     return traces
 
 
-def validate_p_traces(ctx, traces, tag, expect_reject=False):
+def validate_p_traces(ctx, traces, tag, expect_reject=False, cfg="PexTrace.cfg", locate="PexTrace_locate.cfg",
+                      what="PexCommunity"):
+    """Fast path: count the states (every event accepted <=> sum(len + 1) distinct states, all invariants hold);
+    only on failure a second run with `ENABLED TraceNext` locates the trace and the event."""
     tmp = scratch_dir("g05t-")
+    want = sum(len(t["events"]) + 1 for t in traces)
     try:
         path = os.path.join(tmp, "traces.json")
         with open(path, "w", encoding="utf-8") as f:
             json.dump(traces, f)
-        r = run_tlc("PexTrace.tla", "PexTrace.cfg", env={"TRACE_FILE": path}, coverage=False, workers=4,
+        r = run_tlc("PexTrace.tla", cfg, env={"TRACE_FILE": path}, coverage=False, workers=4,
                     timeout=1800)
+        accepted = r.ok and r.distinct == want
+        if expect_reject:
+            return not accepted
+        if not accepted and r.ok:
+            r = run_tlc("PexTrace.tla", locate, env={"TRACE_FILE": path}, coverage=False, workers=4,
+                        timeout=1800)
+            if r.ok:
+                raise MachineryError("trace validation: %d states instead of %d but no event is rejected"
+                                     % (r.distinct, want))
     finally:
         shutil.rmtree(tmp, ignore_errors=True)
-    if expect_reject:
-        return not r.ok
     ctx.add_tlc(tag, r)
     if not r.ok:
         last = r.error_trace[-1][1] if r.error_trace else {}
         tid, l = last.get("tid"), last.get("l")
         bad = traces[tid - 1]["events"] if isinstance(tid, int) else []
+        if r.violated != "TraceAccepted" and isinstance(l, int):
+            l -= 1          # an invariant of Pex.tla fails in the state reached by event l-1
         lo = max(0, (l or 1) - 4)
-        ctx.violation("traceP:%s:%s" % (r.violated, bad[l - 1]["a"] if isinstance(l, int) and l <= len(bad) else "?"),
-                      "recorded PexCommunity execution is not a behaviour of Pex.tla (%s) at event %s" % (r.violated, l),
-                      {"events": bad[lo:(l or 0) + 1], "event_index": l})
+        ctx.violation("trace%s:%s:%s" % (what[0], r.violated, bad[l - 1]["a"] if isinstance(l, int) and 0 < l <= len(bad) else "?"),
+                      "recorded %s execution is not a behaviour of Pex.tla (%s) at event %s" % (what, r.violated, l),
+                      {"events": bad[lo:(l or 0)], "event_index": l})
     else:
         ctx.traces(len(traces))
         ctx.evaluated(sum(len(t["events"]) for t in traces))
@@ -338,9 +361,139 @@ def validate_p_traces(ctx, traces, tag, expect_reject=False):
     return r.ok
 
 
+
+# ---------------------------------------------------------------------------------------------------
+# binding T, hidden-services glue: real HiddenTunnelCommunity nodes create / drop the PEX overlays
+# ---------------------------------------------------------------------------------------------------
+def record_glue_trace(ctx, rng, length):
+    from ..g05_world import GlueWorld, Mismatch
+    random.seed(rng.getrandbits(32))      # first hops, samples of answers: drawn by the code from the global generator
+    w = GlueWorld()
+    ops = []
+    established = set()
+    try:
+        for _ in range(length):
+            x = rng.random()
+            inflight = w.inflight()
+            if x < 0.16:
+                s, j, k = rng.choice(["S1", "S2"]), rng.randint(1, 3), rng.randint(1, 2)
+                if (s, j, k) in established:
+                    continue
+                n0 = len(w.events)
+                w.establish(s, j, k)
+                established.add((s, j, k))
+                ops.append("establish %s E%d swarm%d" % (s, j, k))
+                if [(e["a"], e.get("n"), e.get("s")) for e in w.events[n0:]] != [("StartAnnounce", w.node_id(j, k), w.seeder_index(s, k))]:
+                    ctx.violation("glue:establish", "establishing an introduction point at E%d for swarm %d did not start "
+                                  "exactly one PEX announcement of that seeder key in that swarm's overlay: %s"
+                                  % (j, k, [(e["a"], e.get("n"), e.get("s")) for e in w.events[n0:]]), {"ops": ops})
+                    break
+            elif x < 0.24 and established:
+                s, j, k = rng.choice(sorted(established))
+                established.discard((s, j, k))
+                n0 = len(w.events)
+                w.teardown(s, j, k)
+                ops.append("teardown %s E%d swarm%d" % (s, j, k))
+                if [(e["a"], e.get("n"), e.get("s")) for e in w.events[n0:]] != [("StopAnnounce", w.node_id(j, k), w.seeder_index(s, k))]:
+                    ctx.violation("glue:teardown", "destroying the introduction circuit at E%d for swarm %d did not stop "
+                                  "exactly one PEX announcement of that seeder key in that swarm's overlay: %s"
+                                  % (j, k, [(e["a"], e.get("n"), e.get("s")) for e in w.events[n0:]]), {"ops": ops})
+                    break
+            elif x < 0.48:
+                k = rng.randint(1, 2)
+                a, b = rng.sample([1, 2, 3], 2)
+                if w.walk(w.node_id(a, k), w.node_id(b, k)):      # the prefix of overlay (a, k) addresses swarm k at host b
+                    ops.append("walk %d->%d" % (w.node_id(a, k), w.node_id(b, k)))
+            elif x < 0.74 and inflight:
+                t = rng.choice(inflight)
+                w.deliver(t)
+                ops.append("deliver %r" % (t,))
+            elif x < 0.76 and inflight:
+                t = rng.choice(inflight)
+                w.deliver(t, lose=True)
+                ops.append("lose %r" % (t,))
+            elif x < 0.92:
+                j, k = rng.randint(1, 3), rng.randint(1, 2)
+                probs = w.ask(j, k)
+                ops.append("ask E%d swarm%d" % (j, k))
+                if probs:
+                    ctx.violation("glue:ask", "peers-request to E%d for swarm %d: %s" % (j, k, probs), {"ops": ops})
+                    break
+            else:
+                w.tick()
+                ops.append("tick")
+    except Mismatch as e:
+        ctx.violation("glue:mismatch", "hidden-services PEX glue left the specification's state space: %s" % e,
+                      {"ops": ops})
+    ctx.note("glue_world_%d" % len([k for k in ctx.parts if k.startswith("glue_world_")]),
+             {"operations": len(ops), "ask_circuits_rebuilt": getattr(w, "rebuilt", 0) - 3, "requests_lost": w.unreachable})
+    return {"events": w.events}, ops
+
+
+
+# ---------------------------------------------------------------------------------------------------
+# ./check G05 --replay replays/G05-xxxx.json
+# ---------------------------------------------------------------------------------------------------
+def run_replay(path):
+    """Re-executes a stored failing history of binding R: the state graph of the stored cfg is generated again, the stored
+    labelled steps are followed in it (that yields the specification's states) and replayed on the real objects."""
+    from ..g05_world import Mismatch, diff, spec_state_p
+    with open(path, encoding="utf-8") as f:
+        doc = json.load(f)
+    obj = doc.get("replay") or {}
+    if obj.get("mode") == "simulate" or "steps" not in obj or obj.get("part") not in ("S", "P"):
+        print("this replay file is a recorded trace / simulated behaviour: re-run ./check G05 --tier %s with VERIF_SEED=%s"
+              % (doc.get("tier"), doc.get("seed")))
+        return run(doc.get("tier", "quick"), int(doc.get("seed", 0)))
+    ctx = Ctx(PID, doc.get("tier", "quick"), int(doc.get("seed", 0)), "model_checking")
+    tmp = scratch_dir("g05r-")
+    try:
+        dot = os.path.join(tmp, "g.dot")
+        r = run_tlc("Pex.tla", obj["cfg"], dump=dot, coverage=False)
+        if not r.ok:
+            raise MachineryError("Pex.tla/%s: %s" % (obj["cfg"], r.violated))
+        g = parse_dot(dot)
+    finally:
+        shutil.rmtree(tmp, ignore_errors=True)
+    cur = [i for i in g.init if obj["part"] == "P" or g.states[i]["seeding"] == obj["seeding"]][0]
+    init, steps = cur, []
+    for name, args in obj["steps"]:
+        nxt = [e for e in g.out.get(cur, ()) if g.edges[e][1] == name and jsonable(g.edges[e][2]) == args]
+        if not nxt:
+            raise MachineryError("the stored step %s%s is not in the state graph of %s" % (name, args, obj["cfg"]))
+        steps.append((name, g.edges[nxt[0]][2], g.states[g.edges[nxt[0]][3]]))
+        cur = g.edges[nxt[0]][3]
+    if obj["part"] == "S":
+        w, consts = s_world(obj["cfg"])
+        ctx.seed = obj.get("variant0", ctx.seed)
+        replay_s_walk(ctx, w, consts, g.states[init], steps, {"cfg": obj["cfg"]})
+    else:
+        w, consts = p_world(obj["cfg"])
+        w.reset()
+        for name, args, st in steps:
+            try:
+                w.step(name, args)
+                d = diff(spec_state_p(st), w.project())
+            except Mismatch as ex:
+                d = {"mismatch": str(ex)}
+            if d:
+                ctx.violation("replayP:%s:%s" % (name, ",".join(sorted(d))),
+                              "real PexCommunity diverges from Pex.tla (part P) after %s%s: %s" % (name, list(args), d), obj)
+                break
+    from .. import vloop
+    vloop.uninstall()
+    for _sig, desc, _p in ctx.violations:
+        print("VIOLATION property=%s replay=%s (still diverges)\n  what: %s" % (PID, path, desc))
+    if not ctx.violations:
+        print("G05 replay: conforms now")
+    return 1 if ctx.violations else 0
+
+
 # ---------------------------------------------------------------------------------------------------
 def run(tier, seed, replay=None):
     setup_repo_path()
+    if replay:
+        return run_replay(replay)
     ctx = Ctx(PID, tier, seed, "model_checking")
     ctx.cov["rule"] = ("TLC enumerates the call/handler/timer interleavings of one hidden swarm (Swarm + do_peer_discovery) "
                        "and of a three-node PEX network; walks covering the dumped graphs and simulated behaviours of a "
@@ -358,39 +511,65 @@ def run(tier, seed, replay=None):
         ctx.control("spec: " + what, r.violated in want)
 
     quick = tier == "quick"
-    # ---- part S
-    replay_s_graph(ctx, "Pex_s_ips.cfg", "s_ips", 60000 if quick else None, S_ACTIONS - {"Transfer"})
+    no_tick = S_ACTIONS - {"Tick"}
+    no_xfer = S_ACTIONS - {"Transfer"}
+    # ---- part S: (cfg, tag, budget of real operations or None = complete edge cover, actions that must occur)
+    s_graphs = ([("Pex_s_used.cfg", "s_used", 40000, no_xfer), ("Pex_s_q.cfg", "s_q", 15000, no_xfer),
+                 ("Pex_s_connq.cfg", "s_connq", 12000, no_tick),
+                 ("Pex_s_seeding.cfg", "s_seeding", 3000, {"Discover", "Tick", "AddIntroPoint"})] if quick else
+                [("Pex_s_used.cfg", "s_used", None, no_xfer), ("Pex_s_ips.cfg", "s_ips", 200000, no_xfer),
+                 ("Pex_s_conn_r.cfg", "s_conn_r", 150000, S_ACTIONS), ("Pex_s_connq.cfg", "s_connq", 100000, no_tick),
+                 ("Pex_s_seeding.cfg", "s_seeding", None, {"Discover", "Tick", "AddIntroPoint"})])
+    for cfg, tag, budget, acts in s_graphs:
+        if not ctx.violations:
+            replay_s_graph(ctx, cfg, tag, budget, acts, skip_self_loops=quick)
     if not ctx.violations:
-        replay_s_graph(ctx, "Pex_s_seeding.cfg", "s_seeding", None, {"Discover", "Tick", "AddIntroPoint"})
-    if not ctx.violations:
-        if quick:
-            model_check(ctx, "Pex_s_conn.cfg", "s_conn", S_ACTIONS)
-            w_ops = 30000
-        else:
-            w_ops = 400000
-        replay_s_graph(ctx, "Pex_s_conn_r.cfg", "s_conn_r", w_ops)
-    if not ctx.violations:
-        simulate_s(ctx, "Pex_s_sim.cfg", "s_sim", 40 if quick else 400, 120)
+        simulate_s(ctx, "Pex_s_sim.cfg", "s_sim", 20 if quick else 300, 400)
     if not quick and not ctx.violations:
-        model_check(ctx, "Pex_s_ips2.cfg", "s_ips2", S_ACTIONS - {"Transfer"}, timeout=3600)
+        model_check(ctx, "Pex_s_conn.cfg", "s_conn", S_ACTIONS, timeout=3600)
+        model_check(ctx, "Pex_s_ips2.cfg", "s_ips2", no_xfer, timeout=3600)
     # ---- part P
+    no_ptick = P_ACTIONS - {"PTick"}
+    p_graphs = ([("Pex_p_q.cfg", "p_q", 12000, no_ptick), ("Pex_p_age.cfg", "p_age", 12000, P_ACTIONS),
+                 ("Pex_p_cap.cfg", "p_cap", 6000, no_ptick)] if quick else
+                [("Pex_p_q.cfg", "p_q", 70000, no_ptick), ("Pex_p_age.cfg", "p_age", 70000, P_ACTIONS),
+                 ("Pex_p_cap.cfg", "p_cap", 70000, no_ptick)])
+    for cfg, tag, budget, acts in p_graphs:
+        if not ctx.violations:
+            replay_p_graph(ctx, cfg, tag, budget, acts)
     if not ctx.violations:
-        replay_p_graph(ctx, "Pex_p_net.cfg", "p_net", 40000 if quick else None)
-    if not ctx.violations:
-        replay_p_graph(ctx, "Pex_p_cap.cfg", "p_cap", 20000 if quick else None)
-    if not ctx.violations:
-        if quick:
-            model_check(ctx, "Pex_p_exp.cfg", "p_exp", P_ACTIONS)
-        else:
-            replay_p_graph(ctx, "Pex_p_exp.cfg", "p_exp", 400000)
         model_check(ctx, "Pex_p_unload.cfg", "p_unload", P_ACTIONS)
+        if not quick:
+            model_check(ctx, "Pex_p_net.cfg", "p_net", P_ACTIONS, timeout=3600)
+            model_check(ctx, "Pex_p_exp.cfg", "p_exp", P_ACTIONS, timeout=3600)
     ctx.cov["exhaustive"] = True
     if not ctx.violations:
-        traces = record_p_traces(12 if quick else 120, 150, rng)
+        traces = record_p_traces(10 if quick else 100, 220, rng)
         validate_p_traces(ctx, traces, "p_trace")
         ctx.sample({"part": "P", "recorded": traces[0]["events"][:4]})
-        bad = record_p_traces(1, 150, random.Random(seed + 1), corrupt="stale-answer")
+        bad = record_p_traces(1, 220, random.Random(seed + 1), corrupt="stale-answer")
         ctx.control("trace: an answer listing an entry older than 300 s is rejected", validate_p_traces(ctx, bad, "ctl", True))
-        bad = record_p_traces(1, 150, random.Random(seed + 2), corrupt="foreign-entry")
+        bad = record_p_traces(1, 220, random.Random(seed + 2), corrupt="foreign-entry")
         ctx.control("trace: a learned entry from the other swarm is rejected", validate_p_traces(ctx, bad, "ctl", True))
+    if not ctx.violations:
+        gl = [record_glue_trace(ctx, random.Random(seed * 100 + i), 300 if quick else 600) for i in range(1 if quick else 6)]
+        if not ctx.violations:
+            validate_p_traces(ctx, [t for t, _ in gl], "glue_trace", cfg="PexTrace_glue.cfg",
+                              locate="PexTrace_glue_locate.cfg", what="glue (HiddenTunnelCommunity + PexCommunity)")
+            ctx.sample({"part": "glue", "operations": gl[0][1][:30]})
+            ev = [e for t, _ in gl for e in t["events"]]
+            ctx.note("glue", {"worlds": len(gl), "events": len(ev),
+                              "by_action": {a: sum(1 for e in ev if e["a"] == a) for a in sorted({e["a"] for e in ev})},
+                              "answers_with_entries": sum(1 for e in ev if e["a"] == "GetIntroPoints" and len(e["lst"]) > 1)})
+            bad = json.loads(json.dumps(gl[0][0]))
+            for e in bad["events"]:
+                if e["a"] == "StopAnnounce":          # the overlay keeps its learned list although it was dropped
+                    e["pips"][e["n"] - 1] = [[(e["n"] % 3) + 1 + 3 * ((e["n"] - 1) // 3), 1, e["now"]]]
+                    break
+            else:
+                raise MachineryError("glue trace holds no StopAnnounce event")
+            ctx.control("trace: an overlay that survives its last announcement is rejected",
+                        validate_p_traces(ctx, [bad], "ctl", True, cfg="PexTrace_glue.cfg"))
+    from .. import vloop
+    vloop.uninstall()
     return ctx.finish()
